@@ -1048,4 +1048,15 @@ pub mod verif {
   pub fn filter_devices<'s>(devices: &Vec<&'s str>, skip_non_keyboard: bool, excludes: &[&str], verbose: bool) -> Result<Vec<&'s str>, String> {
     filter_devices_verbose(devices, skip_non_keyboard, excludes, verbose)
   }
+  
+  // The per-device loop on the real driver (mio poll, device readers, uinput writer) over
+  // descriptors the caller owns (socket pairs / pipes instead of /dev/input and /dev/uinput).
+  pub fn run_real_fds(keyboard: std::os::unix::io::RawFd, tablet: Option<std::os::unix::io::RawFd>, out: std::os::unix::io::RawFd, layout: Layout, verbose: bool) -> Result<(), String> {
+    let rw = RW {
+      r: DevInputReader { fd: keyboard },
+      w: DevInputWriter::verif_from_fd(out),
+      t: tablet.map(|fd| TabletModeSwitchReader { fd })
+    };
+    do_remapping_loop_one_device(&mut RealDriver { rw }, layout, verbose)
+  }
 }
